@@ -216,7 +216,9 @@ fn write_maybe_rpx_dimension(
     let unit_str: &str = &unit;
     if unit_str == "rpx" {
         let new_value = value * 100. / ss.options.rpx_ratio;
-        let new_int_value = if (new_value.round() - new_value).abs() <= f32::EPSILON {
+        let new_int_value = if (new_value.round() - new_value).abs() <= f32::EPSILON
+            && new_value.abs() < i32::MAX as f32
+        {
             Some(new_value.round() as i32)
         } else {
             None
